@@ -31,6 +31,14 @@ VECTORS = [
     "CVSS:4.0/AV:N/AC:L",
     "AV:N/AC:L/Au:N/C:P/I:P",
     "CVSS:3.2/AV:N/AC:L/PR:N/UI:N/S:U/C:H/I:H/A:H",
+    # texts that differ from a valid vector only by outer white space / a trailing separator: the
+    # library rejects them, so the calculator must print the library's error message
+    "CVSS:3.1/AV:N/AC:L/PR:N/UI:N/S:U/C:H/I:H/A:H ",
+    " AV:N/AC:L/Au:N/C:P/I:P/A:C/E:F/TD:H",
+    "CVSS:4.0/AV:P/AC:H/AT:P/PR:H/UI:A/VC:N/VI:N/VA:N/SC:N/SI:N/SA:N\t",
+    "\nCVSS:3.0/AV:N/AC:L/PR:N/UI:R/S:C/C:H/I:L/A:N/E:P/MS:U",
+    " ",
+    "CVSS:3.1/AV:N/AC:L/PR:N/UI:N/S:U/C:H/I:H/A:H/",
 ]
 INTERACTIVE_RESULT = {2: "AV:N/AC:L/Au:N/C:P/I:P/A:P", 3.0: "CVSS:3.0/AV:N/AC:L/PR:N/UI:N/S:U/C:H/I:H/A:H", 3.1: "CVSS:3.1/AV:N/AC:L/PR:N/UI:N/S:U/C:H/I:H/A:H", 4.0: "CVSS:4.0/AV:N/AC:L/AT:N/PR:N/UI:N/VC:H/VI:H/VA:H/SC:N/SI:N/SA:N"}
 PAD = 24
